@@ -5,7 +5,8 @@ from conc_common import run_conc
 from seq_common import replay_seq
 
 PROPERTY = 'C14'
-PROPS = ['SalsaVerif.Props.C14', 'SalsaVerif.Props.C14Sync']
+GEN = ['LogicDG']
+PROPS = ['SalsaVerif.Props.C14', 'SalsaVerif.Props.C14Sync', 'SalsaVerif.Props.GenLogicDG']
 KNOWN = ('fb-participant-after-revalidated-head', 'fix-participant-stale-after-revalidation')
 EXPLANATION = ('Single thread (Lean cycle model): a request that re-enters a no-recovery node while it is on the stack ends in `panic cycle`, '
                'never a value, and the evaluator is total so never hangs (`c14_panics`, `c14_total`); the reported panic names a no-recovery '
@@ -14,7 +15,7 @@ EXPLANATION = ('Single thread (Lean cycle model): a request that re-enters a no-
                'blocks nobody; on a panicking release every waiter gets exactly `Panicked` and no edge. Tied to salsa by generated programs '
                'with cycles through no-recovery functions entered from one thread (values / panic classes vs the Lean model and a '
                'must-panic / may-panic reachability oracle, then histories that break the cycle) and from two real threads (every involved '
-               'request ends in a cycle panic or Cancelled::PropagatedPanic, never a value or a hang; afterwards results = oracle).')
+               'request ends in a cycle panic or Cancelled::PropagatedPanic, never a value or a hang; afterwards results = oracle). The revision-aware model `CycleRev` (including its panic classes and poisoning) is compared byte for byte with salsa on every request of every revision.')
 ASSUMPTIONS = ['whether a no-recovery node on a MIXED cycle is re-entered depends on what is memoised; the oracle accepts panic or the fixpoint value there',
                'cross-thread part explored with real threads (sampled schedules)']
 
